@@ -28,12 +28,15 @@ import (
 // C12: three construction paths (setup, R1CS export, key import), repeated in-process and in
 // fresh processes with tape-chosen GOMAXPROCS, must give the byte-identical constraint
 // system; one public input; deletion deeper than 31 refused everywhere.
-type C12 struct{ base }
+type C12 struct {
+	base
+	guardSwept bool
+}
 
-func init() { register(&C12{base{id: "C12", level: "exploration"}}) }
+func init() { register(&C12{base: base{id: "C12", level: "exploration"}}) }
 
 func (c *C12) Rule() string {
-	return "one run = one (mode, depth, batch): node A runs the setup path (seeded keys) and exports pk/vk files; node B runs the import path with A's keys; node C runs the R1CS path twice in-process and as 2..3 fresh `gnark-mbu r1cs` processes with tape-chosen GOMAXPROCS in {1,2,4,16}; SHA-256 of the serialised constraint system must agree across all of them; B proves a fresh valid batch and A's verifying key accepts; the public witness has exactly one element, the input hash; on some runs deletion at depth 32 must be refused on all three library paths and by the CLI (non-zero exit, no keys file). evaluations = constraint systems hashed; non-trivial = every configuration (each compares >= 5 independently produced systems); distinct = (mode, depth, batch, path/process/GOMAXPROCS)"
+	return "one run = one (mode, depth, batch): node A runs the setup path (seeded keys) and exports pk/vk files; node B runs the import path with A's keys; node C runs the R1CS path twice in-process and as 2..3 fresh `gnark-mbu r1cs` processes with tape-chosen GOMAXPROCS in {1,2,4,16}; SHA-256 of the serialised constraint system must agree across all of them; B proves a fresh valid batch and A's verifying key accepts; the public witness has exactly one element, the input hash; on some runs deletion at a depth above 31 (32..34, or one of 24 farther depths up to 4096; once per worker the R1CS path at every depth 32..80) must be refused on all three library paths and by the CLI (non-zero exit, no keys file). evaluations = constraint systems hashed; non-trivial = every configuration (each compares >= 5 independently produced systems); distinct = (mode, depth, batch, path/process/GOMAXPROCS)"
 }
 func (c *C12) Assumptions() []string {
 	return []string{"there is no seam behind which the Go runtime's map-iteration order or the OS scheduling of separate processes could be put: this nondeterminism is SAMPLED (>= 5 compilations over >= 3 processes per configuration), not controlled; a reported difference replays by re-running the configuration, which reproduces the class, not necessarily the same two hashes", "the harness compiles with go1.26.8, the CLI processes with the repository's toolchain; their serialisations are compared with each other as well"}
@@ -92,7 +95,7 @@ func (c *C12) Run(x *engine.Ctx) *engine.Violation {
 	if t.Chance(1, 2) {
 		mode = rollup.Deletion
 	}
-	if t.Chance(1, 6) {
+	if x.Run%4 == 3 || t.Chance(1, 8) {
 		return c.depthGuard(x)
 	}
 	if t.Chance(1, 5) {
@@ -393,6 +396,29 @@ func (c *C12) depthGuard(x *engine.Ctx) *engine.Violation {
 	t := x.T
 	batch := 1 + t.Draw(3)
 	depth := 32 + t.Draw(3)
+	// "deeper than 31" is every depth above 31, not only the next few: the whole range a uint32 flag can carry
+	// that is still cheap to allocate for (the circuit struct holds depth x batch variables before Define runs)
+	far := []int{35, 40, 47, 48, 62, 63, 64, 65, 66, 95, 96, 100, 127, 128, 129, 255, 256, 257, 511, 512, 1000, 1023, 1024, 4096}
+	if t.Chance(1, 2) {
+		depth = far[t.Pick(len(far))]
+	}
+	if !c.guardSwept {
+		// once per worker: the R1CS path at every depth 32..80 and at the far ones (a refusal is immediate)
+		c.guardSwept = true
+		var all []int
+		for d := 32; d <= 80; d++ {
+			all = append(all, d)
+		}
+		all = append(all, far...)
+		for _, d := range all {
+			x.S.Eval(1)
+			x.S.Seen(fmt.Sprintf("guard-sweep/d%d", d))
+			if _, err := prover.BuildR1CSDeletion(uint32(d), 1); err == nil {
+				return engine.Violatef("C12/deep-deletion-circuit-not-refused/r1cs-path", "BuildR1CSDeletion(%d,1) succeeded", d)
+			}
+		}
+		x.S.Count("probe:depth_guard_sweep_32_to_80_and_far")
+	}
 	x.S.Count("probe:depth_guard_checked")
 	x.S.Seen(fmt.Sprintf("guard/d%d/b%d", depth, batch))
 	x.S.Eval(3)
